@@ -1020,9 +1020,15 @@ impl MutableArchive {
             let key = if options.fix_key {
                 // For FIX_KEY, we need the block position
                 // This is a simplified version - real implementation would adjust by block
-                hash_string(archive_name, hash_type::FILE_KEY)
+                hash_string(
+                    crate::path::plain_file_name(archive_name),
+                    hash_type::FILE_KEY,
+                )
             } else {
-                hash_string(archive_name, hash_type::FILE_KEY)
+                hash_string(
+                    crate::path::plain_file_name(archive_name),
+                    hash_type::FILE_KEY,
+                )
             };
 
             // Remember original length before padding (reserved for future use)
